@@ -383,3 +383,30 @@ Proof.
   replace (crc (addr :: pdu) mod 256 + 256 * (crc (addr :: pdu) / 256))%N with (crc (addr :: pdu)) by lia.
   rewrite N.eqb_refl. cbn [length]. reflexivity.
 Qed.
+
+(* ---- detection at session level, in one statement ---- *)
+(* a valid frame hit by a length-preserving error pattern of one of the classes: CrcValidationFailure,
+   nothing delivered, whatever follows and however the bytes are cut into reads *)
+Theorem rtu_corrupted_frame_rejected : forall p addr pdu lo hi ea epdu elo ehi rest chunks fi,
+  bytes (addr :: pdu ++ [lo; hi]) -> bytes (ea :: epdu ++ [elo; ehi]) -> bytes rest -> length epdu = length pdu ->
+  (lo + 256 * hi)%N = crc (addr :: pdu) ->
+  err_class (bits_of (ea :: epdu ++ [elo; ehi])) ->
+  delimited (role_of p) (xor_bytes pdu epdu) -> length pdu <= 253 ->
+  concat chunks = xor_bytes (addr :: pdu ++ [lo; hi]) (ea :: epdu ++ [elo; ehi]) ++ rest -> nonempty_chunks chunks ->
+  exists received expected, received <> expected /\
+    run_session (kind_of p) false chunks fi = ([], EndBad (CrcValidationFailure received expected)).
+Proof.
+  intros p addr pdu lo hi ea epdu elo ehi rest chunks fi HF HE Hrest Hl Hcrc Hcls Hdel Hlen Hs Hnc.
+  change (addr :: pdu ++ [lo; hi]) with ((addr :: pdu) ++ [lo; hi]) in *.
+  change (ea :: epdu ++ [elo; ehi]) with ((ea :: epdu) ++ [elo; ehi]) in *.
+  destruct (detect_frame (addr :: pdu) lo hi (ea :: epdu) elo ehi HF HE ltac:(cbn [length]; now rewrite Hl) Hcrc Hcls) as [Hx Hne].
+  rewrite Hx in Hs. cbn [xor_bytes app] in Hs, Hne.
+  exists (N.lxor lo elo + 256 * N.lxor hi ehi)%N, (crc (N.lxor addr ea :: xor_bytes pdu epdu)). split; [exact Hne|].
+  apply (rtu_detect_session p (N.lxor addr ea) (xor_bytes pdu epdu) (N.lxor lo elo) (N.lxor hi ehi) rest chunks fi); try assumption.
+  - assert (Hb : bytes (xor_bytes ((addr :: pdu) ++ [lo; hi]) ((ea :: epdu) ++ [elo; ehi]))) by (apply bytes_xor; assumption).
+    rewrite Hx in Hb. cbn [xor_bytes app] in Hb. unfold bytes in *.
+    inversion Hb as [|? ? HA HX]; subst. constructor; [exact HA|]. apply Forall_app in HX as [H1 H2].
+    apply Forall_app; split; [exact H1|]. apply Forall_app; split; [exact H2|exact Hrest].
+  - rewrite xor_bytes_length by assumption. exact Hlen.
+  - rewrite Hs. cbn [app]. now rewrite <- app_assoc.
+Qed.
